@@ -239,6 +239,9 @@ type outcome struct {
 	vars []interface{}
 	err  error
 	res  *gorm.DB
+	// mainLast: the operation consists of several statements and the exposed one is the LAST of them
+	// (the real run's last statement event is the one to compare with)
+	mainLast bool
 }
 
 // runChain builds the chain on db and executes the finisher; returns the statement.
